@@ -156,6 +156,44 @@ def main():
             names = [v.name for v in V]
             if which == "jacobian":
                 fns = []
+                # a linear and a quadratic companion over the same variable list: lists that mix constant and non-constant
+                # rows, in both orders (every row must come back at the position of its expression)
+                lin = None
+                for j_, v_ in enumerate(V):
+                    t_ = v_ * float(j_ + 1)
+                    lin = t_ if lin is None else lin + t_
+                quad = V[0] * V[-1] + 1.0
+                mixed_specs = []
+                if vname in ("own", "reversed", "superset"):
+                    mixed_specs = [("compile_jacobian[e,lin]", [e, lin]), ("compile_jacobian[lin,e]", [lin, e]),
+                                   ("compile_jacobian[quad,lin,e]", [quad, lin, e])]
+                for label, exprs_ in mixed_specs:
+                    try:
+                        fm = AD.compile_jacobian(exprs_, V)
+                        env = POINTS[0]
+                        x = np.array([env.get(n, 0.25) for n in names], dtype=float)
+                        with np.errstate(all="ignore"):
+                            Jm = np.asarray(fm(x), dtype=float)
+                        full = {k: env.get(k, 0.25) for k in set(names) | set(env)}
+                        bad = None
+                        if Jm.shape != (len(exprs_), len(names)):
+                            bad = f"shape {Jm.shape}"
+                        for r_, ex_ in enumerate(exprs_):
+                            if bad:
+                                break
+                            for j, n_ in enumerate(names):
+                                try:
+                                    want = O.dnum(ex_, n_, full)
+                                except Exception:       # noqa: BLE001
+                                    continue
+                                stats["entries"] += 1
+                                if not (math.isfinite(Jm[r_, j]) and abs(Jm[r_, j] - want) <= 1e-4 * max(1.0, abs(want))):
+                                    bad = f"row {r_} d/d{n_}: got {Jm[r_, j]}, finite differences {want}, V={names}"
+                                    break
+                        if bad:
+                            fails.append((label, fname, vname, bad))
+                    except Exception as ex:     # noqa: BLE001
+                        stats["raises:" + type(ex).__name__] += 1
                 for label, mk in (("compile_jacobian", lambda: AD.compile_jacobian([e], V)),
                                   ("compile_gradient", lambda: CP.compile_gradient(e, V)),
                                   ("compile_jacobian[2]", lambda: AD.compile_jacobian([e, e * 2.0], V))):
